@@ -350,6 +350,120 @@ def rule_MP4(rep, prog):
     rep.require(rid, ok, fn.file, fn.name, "get-specific-walk", "dispatch_get_specific must look the key up on the current queue and then along do_targetq", sample={"lookups": len(gs)})
 
 
+def rule_OD5(rep, prog):
+    rid = rep.rule("C18-OD5", "a dispatch_sync / async_and_wait item that ends up executed by the thread a bottom queue is bound to runs with the queue it was "
+                   "SUBMITTED to as current queue: every sync context whose invoke function is _dispatch_async_and_wait_invoke records the function's top queue "
+                   "(first parameter) in dc_other, and the invoke pushes exactly that value as the thread frame's queue", floor=3)
+    n = 0
+    for fn in prog.all_functions():
+        fstores = [st for st in fn.all_insts() if st.op == "store" and st.ops[0][0] == "f" and st.ops[0][1] == "_dispatch_async_and_wait_invoke"
+                   and "dc_func" in prog.fields(st)]
+        for fs in fstores:
+            ctxroot = root_of(fn, fs.d["ptr"]["base"])
+            others = [st for st in fn.all_insts() if st.op == "store" and "dc_other" in prog.fields(st) and root_of(fn, st.d["ptr"]["base"]) == ctxroot
+                      and fn.dominates(st, fs) or (st.op == "store" and "dc_other" in prog.fields(st) and root_of(fn, st.d["ptr"]["base"]) == ctxroot and st.block is fs.block)]
+            n += 1
+            rep.saw(fn)
+            ok = bool(others) and all(root_of(fn, st.ops[0]) == ("a", 0) for st in others)
+            rep.require(rid, ok, fs.loc, fn.name, "sync-context-records-wrong-queue:%s" % fn.name,
+                        "%s builds a sync waiter context whose dc_other is not the queue the item was submitted to (its first parameter): when the item is run by "
+                        "the thread a bottom queue is bound to, that value becomes the current queue, so dispatch_get_specific / the queue label / "
+                        "dispatch_assert_queue inside the block see the wrong queue" % fn.name, sample={"fn": fn.name, "dc_other_stores": len(others)})
+    fn = prog.fn("_dispatch_async_and_wait_invoke")
+    rep.saw(fn)
+    push = calls_named(fn, ("_dispatch_thread_frame_push_and_rebase", "_dispatch_thread_frame_push"))
+    okp = bool(push)
+    for c in push:
+        v = fn.inst(c.ops[1])
+        while v is not None and v.op == "bitcast":
+            v = fn.inst(v.ops[0])
+        okp = okp and v is not None and v.op == "load" and "dc_other" in prog.fields(v)
+    rep.require(rid, okp, fn.file, fn.name, "invoke-pushes-other-queue",
+                "_dispatch_async_and_wait_invoke must install the context's dc_other (the submitted-to queue) as the frame's queue", sample={"pushes": len(push)})
+    if n < 3:
+        rep.unknown(rid, "fewer than 3 sync-context constructors found (%d)" % n)
+
+
+def root_of(fn, op):
+    from .C03 import root_ptr
+    return root_ptr(fn, op)
+
+
+def rule_WM6(rep, prog):
+    rid = rep.rule("C18-WM6", "queue-specific storage is created once: dq_specific_head is written only by a compare-exchange from NULL (release; the loser disposes its "
+                   "copy) or by the queue's destructor, so concurrent first dispatch_queue_set_specific calls never replace a head that already holds keys", floor=1)
+    n = 0
+    for fn in prog.all_functions():
+        for i in fn.all_insts():
+            if i.op in ("store", "atomicrmw", "cmpxchg") and "dq_specific_head" in prog.fields(i) and "dispatch_queue_specific_head_s" not in (i.d["ptr"].get("sty") or ""):
+                n += 1
+                rep.saw(fn)
+                if i.op == "cmpxchg":
+                    ok = i.ops[1][0] in ("n",) or (i.ops[1][0] == "c" and i.ops[1][1] == 0)
+                    ok = ok and ord_has_release(i.d.get("ord", ""))
+                else:
+                    ok = fn.name in ("_dispatch_queue_dispose", "_dispatch_lane_class_dispose", "_dispatch_queue_init") or (i.op == "store" and i.ops[0][0] in ("n",))
+                rep.require(rid, ok, i.loc, fn.name, "specific-head-overwritten:%s" % fn.name,
+                            "%s publishes dq_specific_head with a plain %s: two threads that both saw NULL each install their own head and the later one replaces the "
+                            "earlier, silently dropping the key/value already stored there" % (fn.name, i.op), sample={"fn": fn.name, "op": i.op})
+    if n < 1:
+        rep.unknown(rid, "no writer of dq_specific_head found")
+
+
+def rule_TB7(rep, prog):
+    rid = rep.rule("C18-TB7", "one QoS per queue: for every QoS class an attribute can denote, the class the new queue reports (stored in dq_priority) equals the "
+                   "class whose root queue it is put on - each platform clamp is applied to both", floor=7)
+    fn = prog.fn("_dispatch_lane_create_with_target")
+    rep.saw(fn)
+    info = calls_named(fn, "_dispatch_queue_attr_to_info")
+    roots = calls_named(fn, "_dispatch_get_root_queue")
+    pst = [st for st in fn.all_insts() if st.op == "store" and "dq_priority" in prog.fields(st)]
+    if len(info) != 1 or not roots or not pst:
+        rep.unknown(rid, "anchor vanished in _dispatch_lane_create_with_target (attr_to_info=%d root lookups=%d priority stores=%d)" % (len(info), len(roots), len(pst)))
+        return
+    info = info[0]
+    QSHIFT = consts.get(["DISPATCH_PRIORITY_QOS_SHIFT"])["DISPATCH_PRIORITY_QOS_SHIFT"]
+    # reported qos: the `and X, 255` in the backward slice of the first dq_priority store
+    P = None
+    work, seen = [pst[0].ops[0]], set()
+    while work and P is None:
+        o = work.pop()
+        i = fn.inst(o)
+        if i is None or i.id in seen:
+            continue
+        seen.add(i.id)
+        if i.op == "and" and i.ops[1][0] == "c" and i.ops[1][1] == 255 and ceval(fn, ("i", i.id), {info.id: 3}) is not None and \
+                any(u.op == "shl" and u.ops[1][0] == "c" and u.ops[1][1] == QSHIFT for u in fn.users(i)):
+            P = i
+            break
+        work += [x[0] for x in i.ops] if i.op == "phi" else [x for x in i.ops if x[0] == "i"]
+    # root qos: incomings of the root lookup's argument that are pure functions of the attribute info
+    Qs = []
+    work, seen = [roots[0].ops[0]], set()
+    while work:
+        o = work.pop()
+        i = fn.inst(o)
+        if i is None or i.id in seen:
+            continue
+        seen.add(i.id)
+        if i.op == "phi":
+            work += [x[0] for x in i.ops]
+        elif i.op == "select" and ceval(fn, ("i", i.id), {info.id: 3}) is None:
+            work += [x for x in i.ops[1:] if x[0] == "i"]
+        elif ceval(fn, ("i", i.id), {info.id: 3}) is not None:
+            Qs.append(i)
+    if P is None or not Qs:
+        rep.unknown(rid, "could not identify the reported / root QoS values as functions of the attribute info (P=%s Q=%d)" % (P, len(Qs)))
+        return
+    k = consts.get(["DISPATCH_QOS_MAX"])
+    for v in range(0, k["DISPATCH_QOS_MAX"] + 1):
+        pv = ceval(fn, ("i", P.id), {info.id: v})
+        qv = {ceval(fn, ("i", q.id), {info.id: v}) for q in Qs}
+        rep.require(rid, qv == {pv}, P.loc, fn.name, "reported-qos-differs-from-root:%d" % v,
+                    "for attribute QoS %d the queue reports class %s but is placed on the root queue of class %s: a platform clamp was applied to one and not "
+                    "the other, so dispatch_queue_get_qos_class disagrees with where the queue actually runs" % (v, pv, sorted(qv)), sample={"qos": v, "reported": pv})
+
+
 def run(rep, tier="quick", srcdir=None, only=None):
     prog, units = load(UNITS, tier, srcdir)
     rep.units = units
@@ -362,6 +476,12 @@ def run(rep, tier="quick", srcdir=None, only=None):
         rule_TB3(rep, srcdir)
     if want("C18-MP4"):
         rule_MP4(rep, prog)
+    if want("C18-OD5"):
+        rule_OD5(rep, prog)
+    if want("C18-WM6"):
+        rule_WM6(rep, prog)
+    if want("C18-TB7"):
+        rule_TB7(rep, prog)
 
 
 MANIFEST = {
